@@ -48,6 +48,10 @@ pub fn shared(prop: &'static str, seed: u64) -> Vec<Scenario> {
         add(Tier::Quick, format!("close.against.{}", p.clone().reopen().tag()), d_int, 300, 120, Box::new(t_close(pc.clone().reopen(), false)));
         add(Tier::Quick, format!("liq.shallow.{}", pc.clone().partial().reopen().tag()), d_int, 600, 150, Box::new(t_liq(pc.clone().partial().reopen(), 5)));
         add(Tier::Quick, format!("liq.shallow.{}", pc.clone().bad_admin().tag()), d_int, 600, 150, Box::new(t_liq(pc.clone().bad_admin(), 5)));
+        add(Tier::Quick, format!("opp.{}", p.clone().engine_switch().tag()), "as opp; right before the second order the owner re-points the vAMM's margin_engine setting at another account and back", 600, 150, Box::new(t_open2(pc.clone().engine_switch(), false)));
+        add(Tier::Quick, format!("close.against.{}", p.clone().engine_switch().tag()), "as close.against with the vAMM's margin_engine setting re-pointed and restored before the close", 300, 120, Box::new(t_close(pc.clone().engine_switch(), false)));
+        add(Tier::Quick, format!("pclose.{}", p.clone().cheap().tag()), "as pclose on a pool priced at 0.1 with amounts that are not whole units (the quote-to-base round trip of a partial close loses raw units)", 400, 150, Box::new(t_pclose(pc.clone().cheap(), false)));
+        add(Tier::Quick, format!("pclose.with.{}", p.clone().cheap().tag()), "as above, the counter-party trades the same way", 400, 150, Box::new(t_pclose(pc.clone().cheap(), true)));
         add(Tier::Quick, format!("opp.{}", p.clone().fees().pool_switch().tag()), "as opp..fees; right before the second order the owner re-points the engine at a freshly deployed fee pool", 600, 150, Box::new(t_open2(pc.clone().fees().pool_switch(), false)));
         add(Tier::Quick, format!("close.against.{}", p.clone().fees().pool_switch().tag()), "as close.against..fees with the fee pool replaced before the close", 300, 120, Box::new(t_close(pc.clone().fees().pool_switch(), false)));
         add(Tier::Quick, format!("liq.shallow.{}", pc.clone().partial().bad_admin().tag()), d_int, 600, 150, Box::new(t_liq(pc.clone().partial().bad_admin(), 5)));
@@ -370,6 +374,8 @@ pub fn c01_engine(seed: u64) -> Vec<Scenario> {
         v.push(sc(prop, Tier::Quick, &format!("c01.engine.close.{}", sn), d, 300, 90, t_close(pc.clone(), false)));
         v.push(sc(prop, Tier::Quick, &format!("c01.engine.close.{}.reopen", sn), d, 300, 90, t_close(pc.clone().reopen(), false)));
         v.push(sc(prop, Tier::Quick, &format!("c01.engine.opp.{}.reopen", sn), d, 400, 90, t_open2(pc.clone().reopen(), false)));
+        v.push(sc(prop, Tier::Quick, &format!("c01.engine.opp.{}.engine-switch", sn), d, 400, 90, t_open2(pc.clone().engine_switch(), false)));
+        v.push(sc(prop, Tier::Quick, &format!("c01.engine.close.{}.engine-switch", sn), d, 300, 90, t_close(pc.clone().engine_switch(), false)));
         v.push(sc(prop, Tier::Quick, &format!("c01.engine.liq.partial.{}", sn), d, 400, 90, t_liq(pc.clone().partial(), 5)));
         v.push(sc(prop, Tier::Quick, &format!("c01.engine.liq.profitable.{}", sn), d, 400, 90, t_liq_profitable(pc.clone())));
         v.push(sc(prop, Tier::Thorough, &format!("c01.engine.opp.sym.{}", sn), d, 1500, 600, t_open2(p.clone(), false)));
